@@ -4,7 +4,7 @@ from gradesim.worlds.tenants import TenantWorld
 PROFILE = {
     'prop': 'C02', 'name': 'c02',
     'kinds': {'string': 1.5, 'formula': 4, 'numerical': 2, 'matrix': 3.5, 'simitem': 1.5,
-              'singlelist': 2.5, 'interval': 2.5, 'sum': 1.2, 'list': 2.5},
+              'singlelist': 2.5, 'interval': 2.5, 'sum': 1.2, 'list': 2.5, 'integral': 0.5},
     'n_tenants': (1, 4),
     'len': {'quick': (2, 24), 'thorough': (2, 50)},
     'runs': {'quick': 3000, 'thorough': 40000},
